@@ -310,7 +310,22 @@ func (P *Prog) replayViolation(entry string, v *Violation) ReplayResult {
 	P.runPath(p, f)
 	for _, w := range p.violations {
 		if w.Kind == v.Kind && w.Msg == v.Msg {
-			return ReplayResult{Status: "engine-confirmed", Output: "violation re-derived with all inputs pinned to the model values (environment-modelled harness; native replay not applicable)"}
+			out := "violation re-derived with all inputs pinned to the model values (environment-modelled harness; native replay not applicable)"
+			// optional native confirmation of schedule-dependent violations: run the
+			// compiled harness repeatedly with the model's inputs until the Go
+			// scheduler produces a failing interleaving
+			for try := 0; try < P.cfg.StressRuns; try++ {
+				nr := P.runNative(entry, v.Values, uint64(try))
+				if nr.Err != "" {
+					break
+				}
+				if (v.Kind == "assert" && nr.Outcome == "assert-failed" && strings.Contains(nr.Output, "VERIF-ASSERT-FAILED: "+v.Msg)) ||
+					(v.Kind == "panic" && strings.HasPrefix(nr.Outcome, "panic")) {
+					out += fmt.Sprintf("; ALSO reproduced natively against the real build under the Go scheduler (stress run %d of %d):\n%s", try+1, P.cfg.StressRuns, tail(nr.Output, 600))
+					break
+				}
+			}
+			return ReplayResult{Status: "engine-confirmed", Output: out}
 		}
 	}
 	return ReplayResult{Status: "engine-unconfirmed", Output: p.outcome.Kind + ": " + p.outcome.Msg}
